@@ -109,9 +109,11 @@ GStep ==
   /\ hist' = IF RunSet' = {} THEN Append(hist, [ev |-> pend', obs |-> Obs']) ELSE hist
   \* determinism of the replay: at most one goroutine blocked at a time, unless that is the end (deadlock) ...
   /\ RunSet' = {} => (Cardinality(Blocked') <= 1 \/ Deadlocked')
-  \* ... and the loop of commitUpdate (Go map order) never has two records to wait for
+  \* ... and while a commitUpdate is inside its loop over the queue (Go map order: which entries it has passed is not
+  \* known to the harness) at most one of the records it may have to wait for has its sessionsM held
   /\ \A p \in Procs : pc'[p] \in {"m2", "ml"} =>
-        Cardinality({u \in qin' \ ploop'[p] : active'[u] # 0 /\ sh'[active'[u]] # 0}) + (IF pwait'[p] # 0 THEN 1 ELSE 0) <= 1
+        Cardinality({active'[u] : u \in {v \in qin' : active'[v] # 0 /\ sh'[active'[v]] # 0}}
+                    \cup (IF pwait'[p] # 0 /\ sh'[pwait'[p]] # 0 THEN {pwait'[p]} ELSE {})) <= 1
 
 GSpec == GInit /\ [][GStep]_gvars
 
